@@ -39,11 +39,11 @@ Qed.
 
 Lemma pipe_ok_kctl : forall k k' r w, kctl k k' -> pipe_ok k r w -> pipe_ok k' r w.
 Proof.
-  intros k k' r w K (v & vw & A & B & C & D & E & F & G). exists v, vw.
+  intros k k' r w K (X & Y & v & vw & A & B & C & D & E & F & G). split; [assumption|]. split; [assumption|]. exists v, vw.
   rewrite !(kctl_open _ _ _ K). tauto.
 Qed.
 Lemma evfd_ok_kctl : forall k k' r w, kctl k k' -> evfd_ok k r w -> evfd_ok k' r w.
-Proof. intros k k' r w K (A & v & B & C). split; [assumption|]. exists v. rewrite (kctl_open _ _ _ K). tauto. Qed.
+Proof. intros k k' r w K (X & A & v & B & C). split; [assumption|]. split; [assumption|]. exists v. rewrite (kctl_open _ _ _ K). tauto. Qed.
 
 Lemma DynInv_step : forall k s s', FdStep k s s' -> DynInv s ->
   (forall j, 0 <= j <= 16 -> registered (fdt s' (16 + j)) = registered (fdt s (16 + j))) -> DynInv s'.
@@ -62,7 +62,7 @@ Proof.
   - rewrite rs_er, FL, rs_rr. assumption.
   - rewrite rs_er. assumption.
   - intros k0 H. destruct (fs_hsame _ _ _ S k0) as (_&B&C&E&_). unfold hids_ok. rewrite B, C, E. apply dy_userh. assumption.
-  - rewrite rs_ar, rs_af, rs_aw. intros H. destruct (dy_act H) as [(v & A & B) C]. split.
+  - rewrite rs_ar, rs_af, rs_aw. intros H. destruct (dy_act H) as (X & (v & A & B) & C). split; [assumption|]. split.
     + exists v. rewrite (kctl_open _ _ _ K). tauto.
     + destruct C as [C|C]; [left; assumption|right; eapply pipe_ok_kctl; eassumption].
   - rewrite rs_ar, rs_aw. assumption.
@@ -201,4 +201,279 @@ Lemma InvW_emit : forall s e, InvW s -> e <> TCrash -> e <> TFatal -> InvW (emit
 Proof.
   intros s e I A B. apply (InvW_coresame s (emit s e)); [cs_refl| |exact I].
   apply nobad_emit; [apply (ms_nobad _ (iw_misc _ I))|assumption..].
+Qed.
+
+Lemma Misc_same : forall s s', trace s' = trace s -> method s' = method s -> kern s' = kern s -> Misc s -> Misc s'.
+Proof. intros s s' A B C [D E F G]. constructor; unfold is_epoll; rewrite ?A, ?B, ?C; assumption. Qed.
+
+(* InvW with the agreement clause suspended for one descriptor *)
+Record InvWx (k : Z) (s : core) : Prop := {
+  ix_fd : FdInv (-1) s;
+  ix_sync : forall k0, k0 <> k -> sync_at s k0;
+  ix_dyn : DynInv s;
+  ix_heap : HeapSpec.HeapInv (heap s);
+  ix_task : TaskInv s;
+  ix_ev : EvInv s;
+  ix_acct : Acct s;
+  ix_misc : Misc s;
+}.
+Lemma InvW_InvWx : forall k s, InvW s -> InvWx k s.
+Proof. intros k s []. constructor; auto. Qed.
+Lemma InvWx_InvW : forall k s, InvWx k s -> sync_at s k -> InvW s.
+Proof.
+  intros k s [] S. constructor; auto. intros k0. destruct (Z.eq_dec k0 k) as [->|N]; auto.
+Qed.
+
+Lemma InvWx_fdstep : forall k s s', InvWx k s -> FdStep k s s' -> 0 <= k < 16 ->
+  FdInv (-1) s' -> Acct s' -> InvWx k s'.
+Proof.
+  intros k s s' [A B C D E F G H] S K I' AC. pose proof (fs_rest _ _ _ S) as RS. constructor.
+  - assumption.
+  - intros k0 N. apply (fs_sync _ _ _ S); auto.
+  - eapply DynInv_step_user; eassumption.
+  - rewrite (rs_heap _ _ RS). assumption.
+  - eapply TaskInv_same; [apply (rs_tasks _ _ RS)|apply (rs_cur _ _ RS)|assumption].
+  - eapply EvInv_same; eassumption.
+  - assumption.
+  - eapply Misc_step; eassumption.
+Qed.
+
+(* a user descriptor object is rewritten: fields the library owns are kept *)
+Definition libsame (f' f : fdo) : Prop :=
+  fdnum f' = fdnum f /\ registered f' = registered f /\ wanted f' = wanted f /\ regb f' = regb f /\
+  pidx f' = pidx f.
+
+Lemma InvWx_putfd_user : forall s k f', InvW s -> 0 <= k < 16 -> libsame f' (fdt s k) ->
+  hids_ok f' (fun h => 0 <= h < 16) -> InvWx k (putfd s k f').
+Proof.
+  intros s k f' [A B C D E F G H] K (L1&L2&L3&L4&L5) HO. constructor.
+  - apply FdInv_putfd_soft; assumption.
+  - intros k0 N. apply sync_at_same with (s := s); sp; try reflexivity; [apply upd_other; assumption|apply B].
+  - destruct C. constructor; sp; try assumption.
+    + intros j J. rewrite upd_other by lia. auto.
+    + intros j J. rewrite upd_other by (apply dy_range in J; lia). auto.
+    + intros k0 K0. unfold upd. destruct (Z.eqb_spec k0 k) as [->|N]; auto.
+  - exact D.
+  - apply (TaskInv_same s); [reflexivity..|exact E].
+  - apply (EvInv_same s); [constructor; reflexivity|exact F].
+  - destruct G as [G1 G2]. constructor; sp; [|exact G2]. rewrite G1. apply cntf_ext. intros x _.
+    unfold upd. destruct (Z.eqb_spec x k) as [->|N]; congruence.
+  - apply (Misc_same s); [reflexivity..|exact H].
+Qed.
+
+(* ---------- descriptor actions on user descriptors ---------- *)
+Lemma fd_unregister_InvW : forall s k, InvW s -> registered (fdt s k) = true -> k < 16 ->
+  okr (fun s' => StepW s s' /\ UnregPost k s s') (fd_unregister s k).
+Proof.
+  intros s k I R K. pose proof (fv_range _ _ (iw_fd _ I) k R) as RG.
+  eapply okr_weaken; [apply (fd_unregister_ok s k (iw_fd _ I) R)|].
+  intros s' U. split; [|exact U]. destruct U as (A & B & C & D & E & F & G & H & J & L & M & N & O).
+  split.
+  - apply (InvW_fdstep k s s'); try assumption; try lia.
+    + unfold sync_at. rewrite C. discriminate.
+    + apply (Acct_fd k s s' (-1)); try assumption; try lia; [apply (iw_acct _ I)|].
+      right; right. tauto.
+  - apply (Fr_fdstep k); try assumption. rewrite L. apply remz_length.
+Qed.
+
+Lemma fd_register_InvW : forall s k, InvW s -> 0 <= k < 16 -> registered (fdt s k) = false ->
+  k_open (kern s) (fdnum (fdt s k)) <> None -> okr (StepW s) (fd_register s k).
+Proof.
+  intros s k I K R O.
+  eapply okr_weaken; [apply (fd_register_ok s k (iw_fd _ I)); apply RegPre_user; try assumption; apply (iw_fd _ I)|].
+  intros s' (A & B & C & D & E & F & G & H). split.
+  - apply (InvW_fdstep k s s'); try assumption.
+    apply (Acct_fd k s s' 1); try assumption; try lia; [apply (iw_acct _ I)|]. right; left. tauto.
+  - apply (Fr_fdstep k); try assumption; [rewrite E; lia|left; assumption].
+Qed.
+
+Lemma fd_register_try_InvW : forall s k, InvW s -> 0 <= k < 16 -> registered (fdt s k) = false ->
+  okr (StepW s) (fst (fd_register_try s k)).
+Proof.
+  intros s k I K R.
+  eapply okr_weaken; [apply (fd_register_try_ok s k (iw_fd _ I) K R)|].
+  intros s' (A & B & C & D & E). split; [|apply (Fr_fdstep k); try assumption; [rewrite C; lia|left; assumption]].
+  destruct (snd (fd_register_try s k)).
+  - destruct E as (E1 & E2 & E3). apply (InvW_fdstep k s s'); try assumption.
+    + unfold sync_at. rewrite E1. discriminate.
+    + apply (Acct_fd k s s' 0); try assumption; try lia; [apply (iw_acct _ I)|]. left. split; [reflexivity|congruence].
+  - destruct E as (E1 & E2 & E3 & E4). apply (InvW_fdstep k s s'); try assumption.
+    apply (Acct_fd k s s' 1); try assumption; try lia; [apply (iw_acct _ I)|]. right; left. tauto.
+Qed.
+
+Lemma fd_set_handler_InvW : forall s k band h, InvW s -> 0 <= k < 16 ->
+  match h with Some x => 0 <= x < 16 | None => True end -> okr (StepW s) (fd_set_handler s k band h).
+Proof.
+  intros s k band h I K H. unfold fd_set_handler, getfd.
+  set (f' := if band =? 0 then fd_with_handlers (fdt s k) h (h_out (fdt s k)) (h_err (fdt s k))
+             else if band =? 1 then fd_with_handlers (fdt s k) (h_in (fdt s k)) h (h_err (fdt s k))
+             else fd_with_handlers (fdt s k) (h_in (fdt s k)) (h_out (fdt s k)) h).
+  assert (LS : libsame f' (fdt s k)).
+  { subst f'. destruct (band =? 0); [|destruct (band =? 1)]; repeat split. }
+  assert (HO : hids_ok f' (fun x => 0 <= x < 16)).
+  { destruct (dy_userh _ (iw_dyn _ I) k K) as (A & B & C).
+    assert (HH : forall x, h = Some x -> 0 <= x < 16) by (intros x Q; subst h; exact H).
+    subst f'. destruct (band =? 0); [|destruct (band =? 1)]; unfold hids_ok; cbn [fd_with_handlers h_in h_out h_err];
+      (split; [|split]); assumption. }
+  pose proof (InvWx_putfd_user s k f' I K LS HO) as I1.
+  set (s1 := putfd s k f') in *.
+  assert (F1 : Fr s s1) by (apply Fr_restsame; [constructor; reflexivity|reflexivity|change (active s1) with (active s); lia|left; reflexivity]).
+  assert (RG1 : registered (fdt s1 k) = registered (fdt s k)).
+  { subst s1. sp. rewrite upd_same. apply LS. }
+  destruct (registered (fdt s k)) eqn:R.
+  - assert (L1 : live s1 (-1) k) by (apply live_none; split; [lia|assumption]).
+    eapply okr_weaken; [apply (notify_fd_ok (-1) s1 k (ix_fd _ _ I1) L1)|].
+    intros s' (A & B & C & _ & D & E & _ & G). rewrite RG1 in E.
+    split; [|eapply Fr_trans; [exact F1|]; apply (Fr_fdstep k); try assumption;
+             [rewrite (kn_active _ _ C); lia|left; apply (kn_handled _ _ C)]].
+    apply (InvWx_InvW k).
+    + apply (InvWx_fdstep k s1 s'); try assumption.
+      apply (Acct_fd k s1 s' 0); try assumption; try lia; [apply (ix_acct _ _ I1)|left; split; [reflexivity|assumption]| |].
+      * rewrite (kn_numfds _ _ C). lia.
+      * rewrite (kn_numobjs _ _ C). lia.
+    + apply sync_at_intro; [|assumption]. intros _. rewrite E. symmetry. apply (FdStep_bands _ _ _ B).
+  - cbn [okr]. split; [|assumption]. apply (InvWx_InvW k); [assumption|].
+    unfold sync_at. rewrite RG1. discriminate.
+Qed.
+
+(* ---------- kernel-side changes that keep every descriptor's identity ---------- *)
+Lemma pipe_ok_kstable : forall k k' r w, kstable k k' -> pipe_ok k r w -> pipe_ok k' r w.
+Proof.
+  intros k k' r w S (X & Y & v & vw & A & B & C & D & E & F & G).
+  destruct (kstable_open _ _ _ _ S A) as (v' & A' & Q). destruct (Q X) as (Q1 & Q2 & Q3).
+  destruct (kstable_open _ _ _ _ S E) as (vw' & E' & P). destruct (P Y) as (P1 & P2 & P3).
+  split; [assumption|]. split; [assumption|]. exists v', vw'. repeat split; congruence.
+Qed.
+Lemma evfd_ok_kstable : forall k k' r w, kstable k k' -> evfd_ok k r w -> evfd_ok k' r w.
+Proof.
+  intros k k' r w S (X & A & v & B & C). destruct (kstable_open _ _ _ _ S B) as (v' & B' & Q).
+  destruct (Q X) as (Q1 & _). split; [assumption|]. split; [assumption|]. exists v'. split; congruence.
+Qed.
+Lemma KInv_kstable : forall k k', kstable k k' -> KInv k -> KInv k'.
+Proof.
+  intros k k' S [A B]. pose proof (kt_next _ _ S) as N. constructor; [lia|].
+  intros fd H. destruct (k_get k fd) eqn:G; [assert (fd < next_fd k) by (apply B; congruence); lia|].
+  destruct (kt_none _ _ S fd G) as [Q|[Q|Q]]; [contradiction|lia|lia].
+Qed.
+
+Lemma InvW_kstable : forall s k', InvW s -> kstable (kern s) k' -> InvW (set_kern s k').
+Proof.
+  intros s k' [A B C D E F G H] S. constructor.
+  - apply FdInv_kern; [assumption|apply (kt_ep _ _ S)| |].
+    + intros k L. eapply kstable_open_some; [eassumption|]. apply (fv_open _ _ A). assumption.
+    + intros fd Q. eapply kstable_get_some; eassumption.
+  - intros k. apply sync_at_same with (s := s); try reflexivity. apply B.
+  - destruct C. constructor; sp; try assumption.
+    + intros j J. specialize (dy_kern j J). destruct (efd_raw s =? 0);
+        [eapply pipe_ok_kstable|eapply evfd_ok_kstable]; eassumption.
+    + rewrite (kt_flt _ _ S). assumption.
+    + rewrite (kt_flt _ _ S). assumption.
+    + intros J. destruct (dy_act J) as (X & (v & V1 & V2) & W). split; [assumption|]. split.
+      * destruct (kstable_open _ _ _ _ S V1) as (v' & V1' & Q). destruct (Q X) as (Q1 & _).
+        exists v'. split; [assumption|]. rewrite Q1. assumption.
+      * destruct W as [W|W]; [left; assumption|right; eapply pipe_ok_kstable; eassumption].
+    + destruct dy_tfd as [T|(T & v & V1 & V2)]; [left; assumption|right]. split; [assumption|].
+      destruct (kstable_get_kind _ _ _ _ S V1 T) as (v' & V1' & Q). exists v'. split; congruence.
+    + rewrite (kt_ep _ _ S). intros e He Q. destruct (dy_tfdent e He Q) as (v & V1 & V2).
+      assert (T : 1000 <= tfd s).
+      { destruct (fv_ent _ _ A e He) as [((L&_)&_)|[(L&_)|(_&L1&_&L2)]]; first [lia|destruct L; lia]. }
+      destruct (kstable_open _ _ _ _ S V1) as (v' & V1' & Q'). destruct (Q' T) as (Q1 & _).
+      exists v'. split; congruence.
+  - exact D.
+  - apply (TaskInv_same s); [reflexivity..|exact E].
+  - apply (EvInv_same s); [constructor; reflexivity|exact F].
+  - destruct G. constructor; assumption.
+  - destruct H. constructor; sp; try assumption.
+    + rewrite (kt_flt _ _ S). assumption.
+    + eapply KInv_kstable; eassumption.
+Qed.
+
+Lemma Fr_set_kern : forall s k', nwait k' = nwait (kern s) -> Fr s (set_kern s k').
+Proof. intros. apply Fr_restsame; [constructor; reflexivity|assumption|sp; lia|left; reflexivity]. Qed.
+
+(* ---------- states that agree on the descriptor layer ---------- *)
+Record fdcs (s s' : core) : Prop := {
+  fc_fdt : fdt s' = fdt s; fc_active : active s' = active s; fc_handled : handled s' = handled s;
+  fc_numfds : numfds s' = numfds s; fc_method : method s' = method s; fc_notify : notify s' = notify s;
+  fc_tfd : tfd s' = tfd s; fc_er : efd_raw s' = efd_raw s;
+  fc_af : active_fd s' = active_fd s; fc_ar : active_ref s' = active_ref s; fc_aw : active_wr s' = active_wr s;
+  fc_pfds : pfds s' = pfds s; fc_pkeys : pkeys s' = pkeys s;
+  fc_rr : rw_reg s' = rw_reg s; fc_rf : rw_rfd s' = rw_rfd s; fc_rwf : rw_wfd s' = rw_wfd s;
+  fc_kern : kern s' = kern s;
+}.
+Ltac fc_rw CS :=
+  rewrite ?(fc_fdt _ _ CS), ?(fc_active _ _ CS), ?(fc_handled _ _ CS), ?(fc_numfds _ _ CS), ?(fc_method _ _ CS),
+    ?(fc_notify _ _ CS), ?(fc_tfd _ _ CS), ?(fc_er _ _ CS), ?(fc_af _ _ CS), ?(fc_ar _ _ CS), ?(fc_aw _ _ CS),
+    ?(fc_pfds _ _ CS), ?(fc_pkeys _ _ CS), ?(fc_rr _ _ CS), ?(fc_rf _ _ CS), ?(fc_rwf _ _ CS), ?(fc_kern _ _ CS).
+
+Lemma InvW_fdcs : forall s s', fdcs s s' -> InvW s -> nobad (trace s') -> HeapSpec.HeapInv (heap s') ->
+  TaskInv s' -> EvInv s' -> Acct s' -> InvW s'.
+Proof.
+  intros s s' CS [A B C D E F G H] NB HI TI EI AC. constructor; try assumption.
+  - eapply FdInv_eq; [exact A|intros k; rewrite (fc_fdt _ _ CS); tauto|apply CS..].
+  - intros k. unfold sync_at, is_epoll. fc_rw CS. apply B.
+  - destruct C. constructor; unfold is_epoll; fc_rw CS; assumption.
+  - destruct H. constructor; unfold is_epoll; fc_rw CS; assumption.
+Qed.
+Ltac fc_refl := constructor; reflexivity.
+
+(* ---------- timers ---------- *)
+Lemma heap_step : forall s h', InvW s -> HeapSpec.HeapInv h' ->
+  let s' := set_numobjs (set_heap s h') (numobjs s + (HeapModel.numobjs h' - HeapModel.numobjs (heap s))) in
+  InvW s' /\ (nwait (kern s') = nwait (kern s)).
+Proof.
+  intros s h' I HI s'. split; [|reflexivity].
+  apply (InvW_fdcs s s'); try assumption; [fc_refl|apply (ms_nobad _ (iw_misc _ I))| | |].
+  - apply (TaskInv_same s); [reflexivity..|apply (iw_task _ I)].
+  - pose proof (iw_ev _ I) as []. constructor; assumption.
+  - pose proof (iw_acct _ I) as [A B]. constructor; [exact A|]. subst s'. sp.
+    assert (N1 : HeapModel.numobjs h' = HeapModel.num h') by apply HI.
+    assert (N2 : HeapModel.numobjs (heap s) = HeapModel.num (heap s)) by apply (iw_heap _ I).
+    rewrite B, N1, N2. change (curl (set_numobjs (set_heap s h') _)) with (curl s). lia.
+Qed.
+
+From Ivv Require Timer.HeapBase Timer.HeapFacts Timer.HeapDispatch.
+
+Lemma Fr_heap : forall s h' n, (length (HeapModel.batch h') <= length (HeapModel.batch (heap s)))%nat ->
+  Fr s (set_numobjs (set_heap s h') n).
+Proof.
+  intros s h' n H. constructor; sp; try reflexivity; try lia; try tauto.
+Qed.
+
+Lemma lift_heap_ok : forall s o h', InvW s -> o = HeapModel.Ok h' -> HeapSpec.HeapInv h' ->
+  (length (HeapModel.batch h') <= length (HeapModel.batch (heap s)))%nat ->
+  okr (StepW s) (lift_heap s o).
+Proof.
+  intros s o h' I -> HI L. unfold lift_heap. cbn [okr]. split.
+  - apply (heap_step s h' I HI).
+  - apply Fr_heap. assumption.
+Qed.
+
+Lemma timer_reg_ok : forall s j e, InvW s -> timer_registered s j = false ->
+  okr (StepW s) (lift_heap s (HeapModel.register (HeapModel.set_exp (heap s) (tmid j) e) (tmid j))).
+Proof.
+  intros s j e I T. unfold timer_registered in T. apply negb_false_iff in T. apply Z.eqb_eq in T.
+  pose proof (iw_heap _ I) as HI.
+  assert (HI' : HeapSpec.HeapInv (HeapModel.set_exp (heap s) (tmid j) e)).
+  { apply HeapFacts.Inv_HeapInv. apply HeapDispatch.set_exp_inv; [apply HeapFacts.HeapInv_Inv; assumption|assumption]. }
+  destruct (HeapProofs.heap_register_ok _ (tmid j) HI') as (h' & R' & I' & _ & _ & B' & _).
+  - apply HeapBase.tget_set_exp_same.
+  - rewrite HeapBase.tidx_set_exp. assumption.
+  - eapply lift_heap_ok; try eassumption.
+    destruct (HeapBase.set_exp_fields (heap s) (tmid j) e) as (_&_&_&Bt&_). rewrite B', Bt. lia.
+Qed.
+
+Lemma timer_unreg_ok : forall s j, InvW s -> timer_registered s j = true ->
+  okr (StepW s) (lift_heap s (HeapModel.unregister (heap s) (tmid j))).
+Proof.
+  intros s j I T. unfold timer_registered in T. apply negb_true_iff in T. apply Z.eqb_neq in T.
+  pose proof (iw_heap _ I) as HI.
+  assert (GE : -1 <= HeapModel.tidx (heap s) (tmid j)) by apply HI.
+  destruct (Z.eq_dec (HeapModel.tidx (heap s) (tmid j)) 0) as [Z0|NZ].
+  - destruct (HeapProofs.heap_unregister_expired_ok _ _ HI Z0) as (h' & U & I' & _ & _ & NI & SUB).
+    eapply lift_heap_ok; try eassumption.
+    apply NoDup_incl_length; [apply I'|]. intros t Ht.
+    destruct (Pos.eq_dec t (tmid j)) as [->|N]; [contradiction|]. apply SUB; assumption.
+  - destruct (HeapProofs.heap_unregister_ok _ (tmid j) HI ltac:(lia)) as (h' & U & I' & _ & _ & _ & B' & _).
+    eapply lift_heap_ok; try eassumption. rewrite B'. lia.
 Qed.
